@@ -28,6 +28,8 @@ mod mon_c14;
 mod mon_c15;
 mod mon_c16;
 mod mon_c17;
+mod mon_c18;
+mod mon_c19;
 mod mon_c20;
 
 use report::Report;
@@ -97,6 +99,8 @@ fn main() {
         scale: 1.0,
     };
     let mut out = String::from("/dev/stdout");
+    // run the monitor of another property under this property's name (C18's Python half lives in C19's driver)
+    let mut alias: Option<String> = None;
     let mut i = 2;
     while i < args.len() {
         let val = args.get(i + 1).cloned().unwrap_or_default();
@@ -110,6 +114,7 @@ fn main() {
             "--out" => out = val,
             "--budget" => ctx.budget_s = val.parse().expect("budget"),
             "--scale" => ctx.scale = val.parse().expect("scale"),
+            "--prop-alias" => alias = Some(val),
             other => {
                 eprintln!("unknown option {}", other);
                 std::process::exit(3);
@@ -123,10 +128,13 @@ fn main() {
     rep.seed = ctx.seed;
     rep.stage = ctx.stage.clone();
     rep.tier = if ctx.quick() { "quick".to_string() } else { "thorough".to_string() };
-    match ctx.prop.as_str() {
+    let dispatch = alias.clone().unwrap_or_else(|| ctx.prop.clone());
+    match dispatch.as_str() {
         "C01" => mon_c01::run(&ctx, &mut rep),
         "C02" => mon_c02::run(&ctx, &mut rep),
         "C17" => mon_c17::run(&ctx, &mut rep),
+        "C19" => mon_c19::run(&ctx, &mut rep),
+        "C18" => mon_c18::run(&ctx, &mut rep),
         "C06" => mon_c06::run(&ctx, &mut rep),
         "C20" => mon_c20::run(&ctx, &mut rep),
         "C12" => mon_c12::run(&ctx, &mut rep),
